@@ -36,6 +36,13 @@ def prov(fn, local, depth=12, _seen=None):
             toks.add("a:" + nm)
     if 1 <= local <= fn.argc:
         toks.add("arg:%d" % local)
+    for c in _mut_calls(fn).get(local, ()):
+        # `x.push(v)`, `map.insert(k, v)`: the referent of a `&mut` argument derives from the other arguments
+        toks.add("mut:" + c.name())
+        for a in c.args:
+            al = op_local(a)
+            if al is not None and fn.resolve_copy(al) != local:
+                _prov_op(fn, a, toks, depth - 1, _seen)
     for d in fn.defs().get(local, []):
         if d[0] == "stmt":
             rv = d[3]
@@ -51,6 +58,51 @@ def prov(fn, local, depth=12, _seen=None):
             for a in c.args:
                 _prov_op(fn, a, toks, depth - 1, _seen)
     return toks
+
+
+def _mut_calls(fn):
+    """local -> calls that receive a `&mut` reference to it (together with other arguments)."""
+    if getattr(fn, "_mutcalls", None) is None:
+        m = {}
+        for c in fn.calls():
+            if len(c.args) < 2:
+                continue
+            for a in c.args:
+                al = op_local(a)
+                if al is not None and fn.local_ty(al).startswith("&mut"):
+                    tgt = fn.resolve_copy(al)
+                    # `x.insert(..)` through DerefMut / index_mut / get_mut: follow the receiver
+                    for _ in range(4):
+                        d = fn.single_def(tgt)
+                        if d and d[0] == "call" and d[2].name() in (
+                                "deref_mut", "as_mut", "borrow_mut", "index_mut", "get_mut", "as_mut_slice") and d[2].args:
+                            a0 = op_local(d[2].args[0])
+                            if a0 is None:
+                                break
+                            tgt = fn.resolve_copy(a0)
+                        else:
+                            break
+                    m.setdefault(tgt, []).append(c)
+        fn._mutcalls = m
+    return fn._mutcalls
+
+
+def control_fields(fn, local, depth=3):
+    """Field names read by the `match`/`if` discriminants that select between the definitions of
+    `local` (control dependence of a value built per arm, e.g. a fieldless enum conversion)."""
+    out = set()
+    defs = [d for d in fn.defs().get(local, []) if d[0] == "stmt"]
+    blocks = set(d[1] for d in defs)
+    if len(blocks) < 2:
+        # a single definition copying another local: follow it
+        if len(defs) == 1 and depth > 0 and defs[0][3][0] == "use" and op_local(defs[0][3][1]) is not None:
+            return control_fields(fn, op_local(defs[0][3][1]), depth - 1)
+        return out
+    for bb, t in fn.switches():
+        info, _ = bool_condition(fn, bb)
+        if info and info[0] == "disc" and all(fn.dominates(bb, b) for b in blocks):
+            out.update(f for f in place_fields(info[1]) if f is not None)
+    return out
 
 
 def _prov_place(fn, p, toks, depth, seen):
